@@ -132,9 +132,9 @@ Lemma note_inbound_quota c p m :
 Proof.
   intros H Hle. unfold note_inbound.
   destruct (k_qos p =? 0) eqn:Eq; cbn [negb].
-  - destruct (k_qos p =? 2); conn_simpl_goal; exact Hle.
+  - exact Hle.
   - destruct H as [H|H]; [|discriminate]. pose proof (length_ins_le (k_pid p) (c_publish_recv c)).
-    destruct (k_qos p =? 2); conn_simpl_goal; lia.
+    conn_simpl_goal. lia.
 Qed.
 
 (* the send side: a QoS>0 PUBLISH that reaches the check is refused exactly when the count has
